@@ -366,12 +366,12 @@ def run(ctx):  # noqa: F811
     r03_45(ctx)
 
 
-def r03_6(ctx):
+def r03_6(ctx, rid="R03.6"):
     """scalar-affine operations on a Linearization carry the metric"""
     from ..util import cfg_of, known_atoms
     m = ctx.model
     L = m.cls(LIN, "Linearization")
-    ctx.rule("R03.6", "a requested metric is carried through scalar-affine arithmetic: in Linearization's arithmetic methods every "
+    ctx.rule(rid, "a requested metric is carried through scalar-affine arithmetic: in Linearization's arithmetic methods every "
                       "return reachable under np.isscalar(<operand>) is `self`, a delegation to another method of self, or "
                       "self.new(value, jacobian, metric) with a metric term built from self._metric (two-argument new() drops it)", floor=4)
     for name, fi in sorted(L.methods.items()):
@@ -408,21 +408,21 @@ def r03_6(ctx):
             v = n.ast.value
             key = f"{fi.key}::scalar operand: `{short(n.ast, 70)}` keeps the metric"
             if src(v) in ("self", "NotImplemented"):
-                ctx.ok("R03.6", key, "returns the unchanged linearization", fi, n.ast)
+                ctx.ok(rid, key, "returns the unchanged linearization", fi, n.ast)
             elif isinstance(v, ast.Call) and isinstance(v.func, ast.Attribute) and src(v.func.value) in ("self", "(-self)") and v.func.attr != "new":
-                ctx.ok("R03.6", key, f"delegates to self.{v.func.attr}", fi, n.ast)
+                ctx.ok(rid, key, f"delegates to self.{v.func.attr}", fi, n.ast)
             elif isinstance(v, ast.Call) and src(v.func) == "self.new":
                 met = v.args[2] if len(v.args) > 2 else next((k.value for k in v.keywords if k.arg == "metric"), None)
                 if met is None:
-                    ctx.bad("R03.6", key, "self.new(value, jacobian) without a metric: the metric of the operand is lost although "
+                    ctx.bad(rid, key, "self.new(value, jacobian) without a metric: the metric of the operand is lost although "
                                           "want_metric stays set", fi, n.ast)
                 else:
                     from ..terms import inline_at
                     rd = cfg.reaching_defs(params)
                     e = inline_at(cfg, rd, n.id, met, depth=2)
-                    ctx.check("R03.6", key, True if "self._metric" in src(e) or "self.metric" in src(e) else None, f"metric term `{src(e)}`", fi, n.ast)
+                    ctx.check(rid, key, True if "self._metric" in src(e) or "self.metric" in src(e) else None, f"metric term `{src(e)}`", fi, n.ast)
             else:
-                ctx.und("R03.6", key, "return form not recognised", fi, n.ast)
+                ctx.und(rid, key, "return form not recognised", fi, n.ast)
 
 
 def r03_7(ctx):
